@@ -35,8 +35,10 @@ def register(reg):
     reg.cls('ImmutableInteractiveParser', target='lark.parsers.lalr_interactive_parser:ImmutableInteractiveParser', bases=['InteractiveParser'])
 
     # ---- externals
-    reg.contract('deepcopy/list', assumed=True, params={'x': 'list[any]'}, returns='list[any]',
-                 ensures=['fresh(result)', 'len(result) == len(x)'])
+    reg.contract('deepcopy/list', assumed=True, params={'x': 'list[Value]'}, returns='list[Value]',
+                 ensures=['fresh(result)', 'len(result) == len(x)',
+                          # every element is a new object (lark's Tree.__deepcopy__ / Token.__deepcopy__ build new instances)
+                          'all(fresh(result[i]) for i in range(0, len(result)))'])
     reg.contract('LexerThread._Token', assumed=True, kind='staticmethod',
                  params={'type': 'str', 'value': 'str', 'start_pos': 'int', 'line': 'int', 'column': 'int'}, returns='Token',
                  ghost={'defaults': {'start_pos': 0, 'line': 0, 'column': 0}},
@@ -79,7 +81,7 @@ def register(reg):
     # ---- parser state
     reg.contract('lark.parsers.lalr_parser_state:ParserState.__init__', serves=S, kind='method',
                  params={'self': 'ParserState', 'parse_conf': 'ParseConf', 'lexer': 'opt[LexerThread]',
-                         'state_stack': 'opt[list[int]]', 'value_stack': 'opt[list[any]]'},
+                         'state_stack': 'opt[list[int]]', 'value_stack': 'opt[list[Value]]'},
                  ghost={'defaults': {'state_stack': None, 'value_stack': None}},
                  modifies=['self'],
                  ensures=['self.parse_conf is parse_conf', 'self.lexer is lexer',
@@ -99,12 +101,14 @@ def register(reg):
                  ensures=['fresh(result)', 'result.parse_conf is self.parse_conf', 'result.lexer is self.lexer',
                           'fresh(result.state_stack)', 'seq(result.state_stack) == seq(self.state_stack)',
                           'fresh(result.value_stack)', 'len(result.value_stack) == len(self.value_stack)',
-                          'implies(not deepcopy_values, seq(result.value_stack) == seq(self.value_stack))'] + SAMEFUN('result', 'self'),
+                          'implies(not deepcopy_values, seq(result.value_stack) == seq(self.value_stack))',
+                          'implies(deepcopy_values, all(fresh(result.value_stack[i]) for i in range(0, len(result.value_stack))))'] + SAMEFUN('result', 'self'),
                  names={'copy': ('builtin', 'copy'), 'deepcopy': ('builtin', 'deepcopy')},
                  replay=_replay)
     reg.contract('lark.parsers.lalr_parser_state:ParserState.__copy__', serves=S, kind='method',
                  params={'self': 'ParserState'}, returns='ParserState', requires=['len(self.state_stack) >= 1'],
-                 ensures=['fresh(result)', 'fresh(result.state_stack)', 'fresh(result.value_stack)', 'seq(result.state_stack) == seq(self.state_stack)'] + SAMEFUN('result', 'self'),
+                 ensures=['fresh(result)', 'fresh(result.state_stack)', 'fresh(result.value_stack)', 'seq(result.state_stack) == seq(self.state_stack)',
+                          'all(fresh(result.value_stack[i]) for i in range(0, len(result.value_stack)))'] + SAMEFUN('result', 'self'),
                  replay=_replay)
 
     # ---- interactive parser
@@ -121,20 +125,22 @@ def register(reg):
            # class invariant of every interactive parser: the parser state reads from this parser's own lexer thread.
            # Without it resume_parse() on a fork consumes the original's input.
            'result.parser_state.lexer is result.lexer_thread'] + SAMEFUN('result.parser_state', 'self.parser_state')
+    DEEP = 'all(fresh(result.parser_state.value_stack[i]) for i in range(0, len(result.parser_state.value_stack)))'
     PRE = ['len(self.parser_state.state_stack) >= 1', 'self.parser_state.lexer is self.lexer_thread']
     reg.contract('lark.parsers.lalr_interactive_parser:InteractiveParser.copy', serves=S, kind='method',
                  params={'self': 'InteractiveParser', 'deepcopy_values': 'bool'}, returns='InteractiveParser',
                  ghost={'defaults': {'deepcopy_values': True}}, requires=PRE,
-                 ensures=OWN + ['implies(not deepcopy_values, seq(result.parser_state.value_stack) == seq(self.parser_state.value_stack))',
+                 ensures=OWN + ['implies(deepcopy_values, %s)' % DEEP,
+                                'implies(not deepcopy_values, seq(result.parser_state.value_stack) == seq(self.parser_state.value_stack))',
                                 'result.parser == self.parser'],
                  names={'copy': ('builtin', 'copy')}, replay=_replay)
     reg.contract('lark.parsers.lalr_interactive_parser:InteractiveParser.__copy__', serves=S, kind='method',
-                 params={'self': 'InteractiveParser'}, returns='InteractiveParser', requires=PRE, ensures=OWN, replay=_replay)
+                 params={'self': 'InteractiveParser'}, returns='InteractiveParser', requires=PRE, ensures=OWN + [DEEP], replay=_replay)
     reg.contract('lark.parsers.lalr_interactive_parser:InteractiveParser.as_immutable', serves=S, kind='method',
-                 params={'self': 'InteractiveParser'}, returns='ImmutableInteractiveParser', requires=PRE, ensures=OWN,
+                 params={'self': 'InteractiveParser'}, returns='ImmutableInteractiveParser', requires=PRE, ensures=OWN + [DEEP],
                  names={'copy': ('builtin', 'copy'), 'ImmutableInteractiveParser': ('class', 'ImmutableInteractiveParser')}, replay=_replay)
     reg.contract('lark.parsers.lalr_interactive_parser:ImmutableInteractiveParser.as_mutable', serves=S, kind='method',
-                 params={'self': 'ImmutableInteractiveParser'}, returns='InteractiveParser', requires=PRE, ensures=OWN,
+                 params={'self': 'ImmutableInteractiveParser'}, returns='InteractiveParser', requires=PRE, ensures=OWN + [DEEP],
                  names={'copy': ('builtin', 'copy'), 'InteractiveParser': ('class', 'InteractiveParser')}, replay=_replay)
 
     # ---- feeding: InteractiveParser.feed_token is the driver step of its own parser state (is_end iff the token is $END)
@@ -145,7 +151,7 @@ def register(reg):
     reg.contract('lark.parsers.lalr_interactive_parser:InteractiveParser.feed_token', serves=['C13', 'C08'], kind='method',
                  params={'self': 'InteractiveParser', 'token': 'Token'}, returns='any',
                  requires=[lift(r) for r in ft.requires],
-                 modifies=['self.parser_state.state_stack', 'self.parser_state.value_stack'],
+                 modifies=[lift(m) for m in ft.modifies],
                  ensures=[lift(e) for e in ft.ensures] + ['self.parser_state is old(self.parser_state)'],
                  raises={'UnexpectedToken': [lift(e) for e in ft.raises['UnexpectedToken']]},
                  replay=_replay)
